@@ -8,7 +8,7 @@ scale_to_* is called only from the tabled sites, in matched pairs.
 """
 import ast
 
-from .. import astx, cfg as cfgm
+from .. import astx, pathx, cfg as cfgm
 from ..core import AnalysisError
 from ..engine import rule, describe, selftest, Mutant, Twin
 
@@ -27,7 +27,9 @@ describe('C08',
          'physical state at the call, resolved through wrapper methods and their call sites; (state) no '
          'binary vector operation inside a function that uses _unscaled_context mixes a scaled and a '
          'physical vector; (who) scale_to_* is only called from the two contexts and Group._transfer, '
-         'in matched norm/phys pairs with the same mode. Convergence values are not decided.',
+         'in matched norm/phys pairs with the same mode; (neutral) the flags and early exits that switch scaling off '
+         'test exactly the neutral values ref == 1, ref0 == 0, res_ref == 1 and the sibling derivations agree. '
+         'Convergence values are not decided.',
          ['entry points (_apply_nonlinear, _solve_nonlinear, _apply_linear, _solve_linear, _linearize, '
           '_guess_nonlinear) are entered in the scaled state, as their docstrings state',
           'input vectors are not tracked (their scaling is applied in transfers)'])
@@ -516,10 +518,12 @@ class Resolver:
         return self._fs[k]
 
     def callers(self, name):
-        """[(Func, Call)] of `self.<name>(...)` in the core files."""
+        """[(Func, Call)] of `self.<name>(...)` in the analysed files."""
         if self._callers is None:
             self._callers = {}
-            for rel in CORE_FILES:
+            for rel in STATE_FILES:
+                if not self.repo.exists(rel):
+                    continue
                 m = self.repo.module(rel)
                 for f in m.funcs.values():
                     if '<locals>' in f.qualname:
@@ -644,6 +648,80 @@ STATE_FILES = CORE_FILES + ['openmdao/solvers/nonlinear/nonlinear_block_gs.py',
                             'openmdao/solvers/linear/petsc_direct_solver.py']
 
 
+def _guards(st):
+    """{(atom dump, truth)} implied at statement st by the tests of its enclosing ifs.
+
+    Body side of `A and B` gives both atoms true, else side of `A or B` gives both false; other compound
+    tests contribute nothing (sound: fewer facts only make fewer pairs infeasible)."""
+    out = set()
+
+    def known(t, val):
+        if isinstance(t, ast.BoolOp):
+            if (isinstance(t.op, ast.And) and val) or (isinstance(t.op, ast.Or) and not val):
+                for v in t.values:
+                    known(v, val)
+            return
+        e, pol = pathx.atom(t)
+        if isinstance(e, ast.BoolOp):
+            if not pol:
+                known(e, not val)
+            return
+        out.add((astx.dump(e), val == pol))
+    for a in astx.ancestors(st):
+        if isinstance(a, ast.If):
+            if astx.in_body(st, a, 'body'):
+                known(a.test, True)
+            elif astx.in_body(st, a, 'orelse'):
+                known(a.test, False)
+    return out
+
+
+def _conflict(g1, g2):
+    return any((a, not v) in g2 for a, v in g1)
+
+
+def _is_copy_val(val):
+    return isinstance(val, ast.Call) and (
+        (astx.kwarg(val, 'copy') is not None and getattr(astx.kwarg(val, 'copy'), 'value', None) is True)
+        or astx.callee_attr(val) in ('copy', '_copy_vars'))
+
+
+def _param_alternatives(rs, fn, name):
+    """[(state, guards, kind, where)] for an array parameter of a private method: the scaling state in
+    which each value that can be passed for it was captured from an output/residual vector, with the
+    if-guards of the capture and of the call site.  None if any call site passes something unresolved."""
+    params = [a.arg for a in fn.node.args.posonlyargs + fn.node.args.args]
+    if name not in params or fn.node.args.vararg or fn.node.args.kwarg:
+        return None
+    pidx = params.index(name) - (1 if params and params[0] == 'self' else 0)
+    sites = [(cf, c) for cf, c in rs.callers(fn.name) if cf.rel == fn.rel]
+    if not sites:
+        return None
+    alts = []
+    for cf, call in sites:
+        if any(isinstance(a, ast.Starred) for a in call.args):
+            return None
+        arg = call.args[pidx] if pidx < len(call.args) else astx.kwarg(call, name)
+        if not isinstance(arg, ast.Name):
+            return None
+        fs2 = rs.fs(cf)
+        cst = astx.stmt_of(call)
+        nodes = fs2.g.nodes_of(cst)
+        if not nodes:
+            return None
+        for d in fs2.rd.defs(nodes[0], arg.id):
+            if not (d.kind == 'stmt' and isinstance(d.ast, ast.Assign) and len(d.ast.targets) == 1
+                    and astx.path(d.ast.targets[0]) == arg.id):
+                return None
+            val = d.ast.value
+            inner = _DefOperand(rs, cf, d, val)
+            st_ = inner.state(copy=_is_copy_val(val), use_stmt=cst)
+            if st_ is None:
+                return None
+            alts.append((st_, _guards(d.ast) | _guards(cst), inner.kind, f'{cf.name}:{d.ast.lineno}'))
+    return alts
+
+
 def _vector_operands(rs, fn, st):
     """[(expr text, state)] of output/residual-kind vector operands combined by statement st."""
     fs = rs.fs(fn)
@@ -667,6 +745,10 @@ def _vector_operands(rs, fn, st):
                 val, d = fs._value(at, e.id)
                 if val is not None:
                     return ('def', d, val)
+                pnames = [a.arg for a in fn.node.args.posonlyargs + fn.node.args.args]
+                if e.id in pnames and all(x is fs.g.entry or (x.kind == 'stmt' and isinstance(x.ast, ast.AugAssign))
+                                          for x in fs.rd.defs(at, e.id)):
+                    return ('param', e.id, None)
             return None
         if isinstance(e, ast.Call) and isinstance(e.func, ast.Attribute) and e.func.attr in VEC_DERIVE:
             b = base_of(e.func.value, depth + 1)
@@ -688,12 +770,17 @@ def _vector_operands(rs, fn, st):
         b = base_of(e)
         if b is None:
             return
+        if isinstance(b, tuple) and b[0] == 'param':
+            alts = _param_alternatives(rs, fn, b[1])
+            use_g = _guards(st)
+            for s_, g_, k_, where in alts or []:
+                if not _conflict(g_, use_g):
+                    found.append((f'{astx.src(e)} (captured at {where})', s_, k_))
+            return
         if isinstance(b, tuple) and b[0] == 'def':
             _, d, val = b
             # state at the point of definition for copies, at the point of use for views
-            is_copy = isinstance(val, ast.Call) and (
-                (astx.kwarg(val, 'copy') is not None and getattr(astx.kwarg(val, 'copy'), 'value', None) is True)
-                or astx.callee_attr(val) in ('copy', '_copy_vars'))
+            is_copy = _is_copy_val(val)
             inner = _DefOperand(rs, fn, d, val)
             s = inner.state(copy=is_copy, use_stmt=st)
             if s is not None:
@@ -807,7 +894,11 @@ def state(repo, out):
                 continue
             if not any(isinstance(c, ast.Call) and astx.callee_attr(c) == '_unscaled_context'
                        for c in astx.calls(f.node)):
-                continue
+                # also: private methods that receive arrays captured from a vector by a caller in this module
+                pn = [a.arg for a in f.node.args.args if a.arg != 'self']
+                if not (f.name.startswith('_') and rs.callers(f.name) and
+                        any(_param_alternatives(rs, f, n) for n in pn)):
+                    continue
             for st in astx.walk_stmts(f.node.body):
                 ops3 = [o for o in _vector_operands(rs, f, st) if o[1] is not None]
                 ops = [(t, s) for t, s, _ in ops3]
@@ -830,6 +921,182 @@ def state(repo, out):
                             '_has_resid_scaling both', key='state-kind-mix')
                 else:
                     out.ok(f, st, ', '.join(f'{t}:{s}' for t, s in ops))
+
+
+# --------------------------------------------------------------------------- neutral scaling tests
+NEUTRAL = {'ref': 1.0, 'ref0': 0.0, 'res_ref': 1.0}
+FLAG_ROLES = {'_has_output_scaling': {'ref', 'ref0'}, '_has_output_adder': {'ref0'},
+              '_has_resid_scaling': {'res_ref', 'ref'}}
+FLAG_SITES = [('openmdao/core/component.py', 'Component.add_output'),
+              ('openmdao/core/system.py', 'System._apply_output_solver_options')]
+
+
+def _flag_test(t):
+    """(variable name, constant it is compared against) for `v != c`, `np.any(v != c)`, `np.any(v)`."""
+    if isinstance(t, ast.Call) and astx.callee_attr(t) in ('any',) and len(t.args) == 1 and not t.keywords:
+        a = t.args[0]
+        if isinstance(a, ast.Call) and astx.callee_attr(a) in ('asarray', 'atleast_1d') and len(a.args) == 1:
+            a = a.args[0]
+        if isinstance(a, ast.Name):
+            return a.id, 0.0
+        t = a
+    if isinstance(t, ast.Compare) and len(t.ops) == 1 and isinstance(t.ops[0], ast.NotEq):
+        l, r = t.left, t.comparators[0]
+        if isinstance(l, ast.Constant):
+            l, r = r, l
+        if isinstance(l, ast.Name) and isinstance(r, ast.Constant) and isinstance(r.value, (int, float)) \
+                and not isinstance(r.value, bool):
+            return l.id, float(r.value)
+    return None
+
+
+def _meta_key_of(fn, name):
+    """Keys k of every `name = <meta>['k']` binding in fn (provenance of a ref/ref0/res_ref local)."""
+    ks = set()
+    for n in astx.walk(fn.node):
+        if isinstance(n, ast.Assign) and len(n.targets) == 1 and astx.path(n.targets[0]) == name and \
+                isinstance(n.value, ast.Subscript):
+            k = astx.const_str(n.value.slice)
+            if k is not None:
+                ks.add(k)
+    return ks
+
+
+class _Ev:
+    """Evaluate a boolean/arith expression over a {name: float|bool} environment (scalars only)."""
+
+    def __init__(self, env):
+        self.env = env
+
+    def ev(self, e):
+        if isinstance(e, ast.Constant) and isinstance(e.value, (int, float, bool)):
+            return e.value
+        if isinstance(e, ast.Name) and e.id in self.env:
+            return self.env[e.id]
+        if isinstance(e, ast.UnaryOp) and isinstance(e.op, ast.Not):
+            return not self.ev(e.operand)
+        if isinstance(e, ast.UnaryOp) and isinstance(e.op, ast.USub):
+            return -self.ev(e.operand)
+        if isinstance(e, ast.BoolOp):
+            vals = [self.ev(v) for v in e.values]
+            return all(vals) if isinstance(e.op, ast.And) else any(vals)
+        if isinstance(e, ast.BinOp) and type(e.op) in (ast.Add, ast.Sub, ast.Mult):
+            a, b = self.ev(e.left), self.ev(e.right)
+            return a + b if isinstance(e.op, ast.Add) else a - b if isinstance(e.op, ast.Sub) else a * b
+        if isinstance(e, ast.Compare) and len(e.ops) == 1:
+            a, b = self.ev(e.left), self.ev(e.comparators[0])
+            op = e.ops[0]
+            if isinstance(op, ast.Eq):
+                return a == b
+            if isinstance(op, ast.NotEq):
+                return a != b
+            if isinstance(op, ast.Lt):
+                return a < b
+            if isinstance(op, ast.Gt):
+                return a > b
+        raise AnalysisError(f'outside the evaluated fragment: {astx.src(e)}')
+
+
+@rule('C08.neutral', floor=18)
+def neutral(repo, out):
+    """Scaling is skipped / flagged off only for the neutral values ref == 1, ref0 == 0, res_ref == 1."""
+    seen = {}
+    for rel in CORE_FILES:
+        m = repo.module(rel)
+        for f in m.funcs.values():
+            for st in astx.walk_stmts(f.node.body):
+                if not (isinstance(st, ast.AugAssign) and isinstance(st.op, ast.BitOr) and
+                        isinstance(st.target, ast.Attribute) and st.target.attr in FLAG_ROLES):
+                    continue
+                flag = st.target.attr
+                v = st.value
+                if isinstance(v, ast.Attribute):
+                    # propagation from a child: must copy the same flag
+                    if v.attr == flag:
+                        out.ok(f, st, 'propagates the same flag')
+                    else:
+                        out.bad(f, st, f'{flag} is accumulated from {v.attr}', key='neutral-propagate')
+                    continue
+                if isinstance(v, ast.Name):
+                    continue        # gathered per-rank value (MPI bookkeeping), not a test
+                ft = _flag_test(v)
+                if ft is None:
+                    out.unsure(f, st, f'unrecognised scaling test {astx.src(v)}')
+                    continue
+                name, const = ft
+                role = name if name in NEUTRAL else None
+                keys = _meta_key_of(f, name)
+                if role is None or (keys and keys != {role}):
+                    out.bad(f, st, f'{flag} is decided from {name}' +
+                            (f' (bound from metadata key {sorted(keys)})' if keys else '') +
+                            ', which is not a scaling reference of that name', key='neutral-role')
+                    continue
+                if role not in FLAG_ROLES[flag]:
+                    out.bad(f, st, f'{flag} must not depend on {role}', key='neutral-role')
+                    continue
+                if const != NEUTRAL[role]:
+                    out.bad(f, st, f'{role} is tested against {const}; the value that means "no scaling" is '
+                            f'{NEUTRAL[role]} ({flag} would stay off for a {role} that does scale, or turn on '
+                            'for none)', key=f'neutral-{role}')
+                    continue
+                seen.setdefault((rel, f.qualname), set()).add((flag, role, isinstance(v, ast.Call)))
+                out.ok(f, st, f'{flag} |= {role} != {const}')
+    # the two sibling sites that derive the flags from declarations must set the same (flag, role, form) set
+    want = None
+    for site in FLAG_SITES:
+        got = seen.get(site, set())
+        if not got:
+            raise AnalysisError(f'{site[1]}: no scaling flag computation recognised')
+        if want is None:
+            want = (site, got)
+        elif got != want[1]:
+            fn = repo.func(*site)
+            out.bad(fn, fn.node, f'scaling flags are derived differently than in {want[0][1]}: '
+                    f'only here {sorted(got - want[1])}, only there {sorted(want[1] - got)}', key='neutral-siblings')
+        else:
+            out.ok(repo.func(*site), repo.func(*site).node, f'same {len(got)} flag derivations as {want[0][1]}')
+    # root input scale factors: the early exit must be taken only for ref == 1 and ref0 == 0
+    fn = repo.func('openmdao/core/group.py', 'Group._compute_root_scale_factors')
+    defs = [st for st in astx.walk_stmts(fn.node.body) if isinstance(st, ast.Assign) and len(st.targets) == 1
+            and astx.path(st.targets[0]) == 'has_scaling']
+    if len(defs) != 1:
+        out.unsure(fn, fn.node, 'expected one definition of has_scaling')
+    else:
+        st = defs[0]
+        for nm in ('ref', 'ref0'):
+            if _meta_key_of(fn, nm) - {nm}:
+                out.bad(fn, st, f'{nm} is bound from metadata key {sorted(_meta_key_of(fn, nm))}', key='neutral-role')
+        bad = None
+        for r, r0 in ((1.0, 0.0), (4.0, 3.0), (2.0, 0.0), (1.0, 0.5), (-1.5, -2.5), (0.5, -0.5), (2.0, 1.0), (0.0, -1.0)):
+            try:
+                val = _Ev(dict(ref=r, ref0=r0, scalar_ref=True, scalar_ref0=True)).ev(st.value)
+            except AnalysisError as e:
+                out.unsure(fn, st, str(e))
+                bad = 'unsure'
+                break
+            if bool(val) != ((r, r0) != (1.0, 0.0)):
+                bad = (r, r0, val)
+                break
+        if bad is None:
+            out.ok(fn, st, 'has_scaling is False exactly for scalar ref == 1, ref0 == 0 (8 sample pairs)')
+        elif bad != 'unsure':
+            out.bad(fn, st, f'has_scaling evaluates to {bad[2]} for scalar ref={bad[0]}, ref0={bad[1]}: '
+                    'the connected input would ' + ('lose its scale factors' if not bad[2] else 'get scale factors')
+                    + ' although the source is ' + ('scaled' if not bad[2] else 'not scaled'), key='neutral-root')
+    # _chk_scale_factor: the neutral (a0, a1) pair is (0, 1)
+    cf = repo.module('openmdao/core/group.py').funcs.get('_chk_scale_factor')
+    if cf is not None:
+        cmp_ = [n for n in astx.walk(cf.node) if isinstance(n, ast.Compare) and len(n.ops) == 1 and
+                isinstance(n.comparators[0], ast.Tuple)]
+        if len(cmp_) == 1 and all(isinstance(x, ast.Constant) for x in cmp_[0].comparators[0].elts):
+            tup = tuple(float(x.value) for x in cmp_[0].comparators[0].elts)
+            if tup == (0.0, 1.0) and isinstance(cmp_[0].ops[0], ast.Eq):
+                out.ok(cf, cmp_[0], 'neutral (a0, a1) == (0, 1)')
+            else:
+                out.bad(cf, cmp_[0], f'neutral scale-factor pair is tested as {tup}; (a0, a1) = (ref0, ref - ref0) '
+                        'is neutral at (0, 1)', key='neutral-pair')
+        else:
+            out.unsure(cf, cf.node, '_chk_scale_factor shape not recognised')
 
 
 WHO = {
@@ -1000,6 +1267,31 @@ selftest(
     Mutant('who-transfer-mode', 'openmdao/core/group.py', "                    vec_inputs.scale_to_phys(mode='rev')", "                    vec_inputs.scale_to_phys()", 'C08.who'),
     Mutant('who-transfer-unpaired', 'openmdao/core/group.py', "                    xfer._transfer(vec_inputs, self._vectors['output'][vec_name], mode)\n                    vec_inputs.scale_to_phys()\n",
            "                    xfer._transfer(vec_inputs, self._vectors['output'][vec_name], mode)\n", 'C08.who'),
+    Mutant('state-aitken-restore-unscaled-dropped', 'openmdao/solvers/nonlinear/nonlinear_block_gs.py',
+           "        if not self.options['use_apply_nonlinear']:\n            with system._unscaled_context(outputs=[outputs]):\n                outputs.set_val(outputs_n)\n        else:\n            outputs.set_val(outputs_n)\n",
+           "        outputs.set_val(outputs_n)\n", 'C08.state'),
+    Mutant('state-aitken-capture-scaled', 'openmdao/solvers/nonlinear/nonlinear_block_gs.py',
+           "            if not self.options['use_apply_nonlinear']:\n                with system._unscaled_context(outputs=[outputs]):\n                    outputs_n = outputs.asarray(copy=True)\n            else:\n                outputs_n = outputs.asarray(copy=True)\n",
+           "            outputs_n = outputs.asarray(copy=True)\n", 'C08.state'),
+    Twin('twin-state-aitken-branches-swapped', 'openmdao/solvers/nonlinear/nonlinear_block_gs.py',
+         "        if not self.options['use_apply_nonlinear']:\n            with system._unscaled_context(outputs=[outputs]):\n                outputs.set_val(outputs_n)\n        else:\n            outputs.set_val(outputs_n)\n",
+         "        if self.options['use_apply_nonlinear']:\n            outputs.set_val(outputs_n)\n        else:\n            with system._unscaled_context(outputs=[outputs]):\n                outputs.set_val(outputs_n)\n"),
+    Mutant('neutral-array-ref0-vs-one', SYSTEM, "                    subsys._has_output_scaling |= np.any(ref0)\n                    subsys._has_output_adder |= np.any(ref0)",
+           "                    subsys._has_output_scaling |= np.any(ref0 != 1.0)\n                    subsys._has_output_adder |= np.any(ref0 != 1.0)", 'C08.neutral'),
+    Mutant('neutral-scalar-ref-vs-zero', 'openmdao/core/component.py', "            self._has_output_scaling |= ref != 1.0", "            self._has_output_scaling |= ref != 0.0", 'C08.neutral'),
+    Mutant('neutral-adder-from-ref', 'openmdao/core/component.py', "            self._has_output_adder |= ref0 != 0.0", "            self._has_output_adder |= ref != 1.0", 'C08.neutral'),
+    Mutant('neutral-sibling-missing-adder', SYSTEM, "                    subsys._has_output_scaling |= ref0 != 0.0\n                    subsys._has_output_adder |= ref0 != 0.0",
+           "                    subsys._has_output_scaling |= ref0 != 0.0", 'C08.neutral'),
+    Mutant('neutral-propagate-wrong-flag', 'openmdao/core/group.py', "                grp._has_output_adder |= subsys._has_output_adder", "                grp._has_output_adder |= subsys._has_output_scaling", 'C08.neutral'),
+    Mutant('neutral-root-difference-only', 'openmdao/core/group.py', "has_scaling = not scalar_ref or not scalar_ref0 or ref != 1.0 or ref0 != 0.0",
+           "has_scaling = not scalar_ref or not scalar_ref0 or (ref - ref0) != 1.0", 'C08.neutral'),
+    Mutant('neutral-root-and', 'openmdao/core/group.py', "has_scaling = not scalar_ref or not scalar_ref0 or ref != 1.0 or ref0 != 0.0",
+           "has_scaling = not scalar_ref or not scalar_ref0 or (ref != 1.0 and ref0 != 0.0)", 'C08.neutral'),
+    Mutant('neutral-pair-swapped', 'openmdao/core/group.py', "        if factor == (0.0, 1.0):", "        if factor == (1.0, 0.0):", 'C08.neutral'),
+    Twin('twin-neutral-demorgan', 'openmdao/core/group.py', "has_scaling = not scalar_ref or not scalar_ref0 or ref != 1.0 or ref0 != 0.0",
+         "has_scaling = not (scalar_ref and scalar_ref0 and ref == 1.0 and ref0 == 0.0)"),
+    Twin('twin-neutral-explicit-zero', 'openmdao/core/component.py', "            self._has_output_scaling |= np.any(ref0)\n            self._has_output_adder |= np.any(ref0)",
+         "            self._has_output_adder |= np.any(ref0 != 0.0)\n            self._has_output_scaling |= np.any(0.0 != ref0)"),
     Twin('twin-vec-early-return', DVEC, "        data *= scaler\n        if adder is not None:  # nonlinear only\n            data += adder",
          "        data *= scaler\n        if adder is None:\n            return\n        data += adder"),
     Twin('twin-vec-unpack-elif', DVEC,
